@@ -1,0 +1,20 @@
+//go:build verif
+
+package ch
+
+import "context"
+
+// VerifHook is called at the linearization points of Do, Ping and the
+// handshake when the package is built with the verif tag. It is nil unless
+// a verification harness installs it.
+var VerifHook func(ctx context.Context, c *Client, point string, err error)
+
+func verifAt(ctx context.Context, c *Client, point string, err ...error) {
+	if h := VerifHook; h != nil {
+		var e error
+		if len(err) > 0 {
+			e = err[0]
+		}
+		h(ctx, c, point, e)
+	}
+}
